@@ -41,17 +41,17 @@ check("C16", "ipcsim", "fault_enumeration",
       "DESIGN.md 3/C16")
 
 check("C02", "histsim", "exploration",
-      "Seeded edit histories over generated multi-module projects (slots, uses, imports incl. cycles, module add/delete, stubs, syntax break/heal, inline config, touch) on all store x format configurations under a simulated mtime clock (gaps, forward jumps, back-jumps, sub-second gaps); after every run step the real CLI run on the shared cache is compared with a real CLI run on an empty cache. A clean batch is evidence, not proof.",
+      "Seeded edit histories over generated multi-module projects (slots, uses, imports incl. cycles, module add/delete, stubs, syntax break/heal, inline config, touch) on all store x format configurations under a simulated mtime clock (gaps, forward jumps, back-jumps, sub-second gaps); after every run step the real CLI run on the shared cache is compared with a real CLI run on an empty cache. Further finite families: the repository's incremental cases x history transforms, a clock-stall family, and hand-written histories that isolate one dependency mechanism each (sim/synthetic-incremental.test) x transforms x store/format configurations. A clean batch is evidence, not proof.",
       "Trusted: the cold run as oracle; typeshed replaced by lib-stub + fixture builtins; content-changing edits change (int(mtime), size) in the main campaign (the stall family drops this and is matched as a known finding by counterfactual replay); known-finding classifiers in sim/runner.py (only_once notes, partial output before a blocker).",
       "deterministic simulation: seeded edit/run histories over a durable cache with a simulated mtime clock, warm-vs-cold oracle, ddmin-minimised replay op lists",
       "DESIGN.md 3/C02")
 check("C04", "histsim", "fault_enumeration",
-      "Per scenario (project x store/format config x warm-up x edit x clock mode) the clean execution of the run after the edit is recorded, and every fault plan is executed from the same cache snapshot: crash before each mutating store op and after the last op, each single write / remove / commit failing through the store's own error path, torn temp-file write, all data / meta / meta_ex / all writes failing, plus sampled failure subsets; the following clean warm run must equal the cold run. Includes a determinism self-test.",
+      "Per scenario (project x store/format config x warm-up x edit x clock mode) the clean execution of the run after the edit is recorded, and every fault plan is executed from the same cache snapshot: crash before each mutating store op and after the last op, each single write / remove / commit failing through the store's own error path, torn temp-file write, all data / meta / meta_ex / all writes failing, plus sampled failure subsets; the following clean warm run must equal the cold run. Second continuation (revert leg, with a fault-free control per scenario): the edit is undone, then one half and the other half of the files are re-saved, each followed by a run compared with its cold run. Includes a determinism self-test.",
       "Trusted: a completed syscall / committed sqlite transaction survives the kill (process death, not power loss); the scenario families (128 generated projects incl. plugin changes, 24 plugin-change projects with independent leaf modules, 24 parallel-build scenarios with worker/coordinator crash points and worker store failures on the fixed schedule of sim/parsched.py) are finite and swept completely in the thorough tier, VERIF_SEED selects the quick sample; plans per scenario are enumerated.",
       "deterministic simulation with fault injection: store-op level crash-point and write-failure enumeration inside simulated runs, cold-run oracle",
       "DESIGN.md 3/C04")
 check("C07", "parsched", "exploration",
-      "The shipped coordinator (build.build with num_workers=N) and shipped worker main run as real processes whose interleaving is owned by a seeded controller: workers park at a gate before every store op and every send, the controller replaces the coordinator's select() and draws one action (step worker i / deliver a subset of ready replies) at a time; free-worker choice is drawn too. Output must equal the sequential build; the cache left behind must serve later sequential and parallel warm runs; no record may be read by a worker before another worker writes it in the same run; no deadlock. Determinism self-test on every run.",
+      "The shipped coordinator (build.build with num_workers=N) and shipped worker main run as real processes whose interleaving is owned by a seeded controller: workers park at a gate before every store op and every send, the controller replaces the coordinator's select() and draws one action (step worker i / deliver a subset of ready replies) at a time; free-worker choice is drawn too. Besides the generated and corpus families, two hand-shaped families: disjoint import cycles on 2-3 shard stores (cyc) and independent interface changes with unchanged dependants in a warm parallel run (pair). Output must equal the sequential build; the cache left behind must serve later sequential and parallel warm runs; no record may be read by a worker before another worker writes it in the same run; no deadlock. Determinism self-test on every run.",
       "Trusted: replies fit in the socket buffer; the sqlite shard lock is simulated (a write is not enabled while another worker holds an uncommitted write on that shard); workers are pre-forked slots instead of exec'd interpreters; typeshed replaced by fixtures.",
       "deterministic simulation: seeded scheduler over gated real worker processes (baton passing at store-op and message granularity), sequential-build oracle",
       "DESIGN.md 3/C07")
@@ -66,7 +66,7 @@ check("C10", "histsim", "exploration",
       "deterministic simulation: controlled-variable histories (hash seed, argument order, listing order, in-process build history) with byte-level comparison of output and cache records",
       "DESIGN.md 3/C10")
 check("C03", "daemonsim", "exploration",
-      "One long-lived dmypy Server object is driven through check/recheck over histories derived from the repository's multi-step fine-grained cases (fine-grained*.test read at run time): forward, revert to first, revert to previous and redo, skip a step, one file at a time, touch noise, restore backup (old content with its old mtime), all at once, start from a fine-grained cache; request style check <files> or recheck. After every request a fresh daemon on byte- and mtime-identical files is the oracle (status, per-file ordered diagnostics, stderr). The family (case x transform x style) is finite and swept completely in the thorough tier; VERIF_SEED selects the quick sample.",
+      "One long-lived dmypy Server object is driven through check/recheck over histories derived from the repository's multi-step fine-grained cases (fine-grained*.test read at run time) and six hand-written cases (sim/synthetic-follow-imports.test: chains of modules edited at once, re-export-only edits): forward, revert to first, revert to previous and redo, skip a step, one file at a time, touch noise, restore backup (old content with its old mtime), all at once, start from a fine-grained cache; request style check <files> or recheck. After every request a fresh daemon on byte- and mtime-identical files is the oracle (status, per-file ordered diagnostics, stderr). The family (case x transform x style) is finite and swept completely in the thorough tier; VERIF_SEED selects the quick sample.",
       "Trusted: fresh daemon as oracle (daemon-mode message wording is by design); the summary line is not a diagnostic; members whose cached state has diagnostics are outside the cache leg (documented unsupported in the suite); the generated-model family is exploration only (DESIGN 9.7); transport is C16's subject.",
       "deterministic simulation: long-lived daemon vs fresh daemon over transformed edit histories with a simulated mtime clock",
       "DESIGN.md 3/C03, 9.7")
